@@ -887,7 +887,8 @@ class Interp:
         name = None
         if isinstance(t, (ast.Name, ast.Attribute, ast.Subscript)):
             name = t.id if isinstance(t, ast.Name) else "§" + unparse(t)
-            yes = [a for a in alts_of(env.get(name, v)) if self.truth(a) != FALSE]
+            # (an opaque rule value that passed a truth test is not None)
+            yes = [(Operand(a.rule, a.path, src=a.src, only=frozenset(self.operand_classes(a) - {"const:NoneType"})) if isinstance(a, Operand) and self.truth(a) == MAYBE and "const:NoneType" in self.operand_classes(a) else a) for a in alts_of(env.get(name, v)) if self.truth(a) != FALSE]
             # a string that counts as false is the empty string
             no = [Const("") if isinstance(a, (StrV, Tmpl)) else a for a in alts_of(env.get(name, v)) if self.truth(a) != TRUE]
             if yes:
